@@ -141,6 +141,9 @@ def rule_rs1(A: Analysis, rep, F: Optional[RestoreFacts] = None):
     ea = A.fn("cli.restore.extract_archive")
     ok = tar_failure_checked(A, ea)
     rep.check(ok, "RS4", "tar failure is an error", ea.node, "", "a failing tar extraction is not reported")
+    xo = tar_extra_options(A, ea, "xzf")
+    rep.check(xo == [], "RS4", "tar extracts every member as stored", ea.node, "tar xzf <archive> -C <staging>, no other option",
+              "the tar extraction is given %s: members can be left out or altered" % (xo if xo is not None else "a command line that is not a list display"))
     rep.expect_min("RS1", 3)
     rep.expect_min("RS4", 7)
     return F
@@ -167,6 +170,35 @@ def rule_rs2(A: Analysis, rep, F: Optional[RestoreFacts] = None):
         rep.check(not dels, "RS2", "no delete/replace before the copy", call, "", "the restore loop deletes or replaces something: %s" % [norm(d)[:50] for d in dels])
     rep.expect_min("RS2", 2)
     return F
+
+
+def tar_extra_options(A: Analysis, fi, mode: str) -> Optional[List[str]]:
+    """The elements of the tar command line that are neither the program, the mode word, `-C`, nor a `str(path)` /
+    starred list of member names: every such element is an option that changes *which* members are packed or how they
+    are stored (`--exclude`, `--newer`, `--transform`, `-h`, …).  None when the command line is not a list display."""
+    pops = [c for c in walk_local(fi.node) if isinstance(c, ast.Call) and norm(c.func) in ("subprocess.Popen", "subprocess.run", "subprocess.check_call")]
+    if len(pops) != 1 or not pops[0].args:
+        return None
+    argv = A.expand(pops[0].args[0], fi)
+    if not isinstance(argv, (ast.List, ast.Tuple)):
+        return None
+    extra = []
+    for i, x in enumerate(argv.elts):
+        t = norm(x)
+        if i == 0 and t == "'tar'":
+            continue
+        if i == 1 and isinstance(x, ast.Constant) and isinstance(x.value, str) and sorted(x.value.lstrip("-")) == sorted(mode):
+            continue
+        if t == "'-C'":
+            continue
+        inner = x.value if isinstance(x, ast.Starred) else x
+        lits = [c.value for c in ast.walk(inner) if isinstance(c, ast.Constant) and isinstance(c.value, str)]
+        if any(l.startswith("-") for l in lits):
+            extra.append(t)
+            continue
+        if isinstance(x, ast.Constant):
+            extra.append(t)      # a bare literal word that is not the program / mode / -C
+    return extra
 
 
 def tar_failure_checked(A: Analysis, fi) -> bool:
@@ -269,6 +301,9 @@ def rule_name1(A: Analysis, rep):
     rep.check(ok, "NAME1", "tar packs the index and the directories relative to cond-out", ca.node, "", "the tar command line changed")
     ok = tar_failure_checked(A, ca)
     rep.check(ok, "NAME1", "tar failure is an error", ca.node, "", "a failing tar is not reported")
+    xo = tar_extra_options(A, ca, "czf")
+    rep.check(xo == [], "NAME1", "tar packs every file of every listed directory", ca.node, "tar czf <archive> -C <cond-out> <index> <dirs…>, no other option",
+              "tar is given %s: files inside the archived version directories can be left out or altered" % (xo if xo is not None else "a command line that is not a list display"))
     rep.expect_min("NAME1", 6)
 
 
